@@ -107,7 +107,15 @@ def exact_stream(ctx):
             # tolerance and still far from zero (the formula has no threshold other than exactly 0)
             lr = Fraction(rng.choice([1, 3]), 2 ** rng.randrange(10, 26))
             kl = Fraction(rng.choice([1, 3, 5]), 2 ** rng.randrange(24, 80))
-        p = KFACPreconditioner(m, kl_clip=float(kl), lr=float(lr))
+        tied = rng.random() < 0.2
+        if tied:
+            # weight tying between two registered layers: one shared gradient tensor, still one <V,D> term PER LAYER
+            m = torch.nn.Sequential(torch.nn.Linear(2, 2, bias=biases[0]), torch.nn.Linear(2, 2, bias=biases[1])).double()
+            m[1].weight = m[0].weight
+        # an AMP loss scale handed to K-FAC (grad_scaler) concerns the factors only: the gradients the clip statistic reads have
+        # been unscaled by the training loop (scaler.unscale_(optimizer)) before step()
+        gs = (lambda: 1024.0) if rng.random() < 0.3 else None
+        p = KFACPreconditioner(m, kl_clip=float(kl), lr=float(lr), grad_scaler=gs)
         if rng.random() < 0.3:
             # the learning rate (and the clip) in force were set by the real LambdaParamScheduler after construction
             from kfac.scheduler import LambdaParamScheduler
@@ -125,7 +133,8 @@ def exact_stream(ctx):
             mod = lay.module
             a, g = mod.a_factor_shape[0], mod.g_factor_shape[0]
             z = 0 if li == zero_layer else 1
-            mod.module.weight.grad = torch.tensor([[float(z * rng.randrange(-4, 5)) for _ in range(a - int(mod.has_bias()))] for _ in range(g)], dtype=torch.float64)
+            if not (tied and li == 1):
+                mod.module.weight.grad = torch.tensor([[float(z * rng.randrange(-4, 5)) for _ in range(a - int(mod.has_bias()))] for _ in range(g)], dtype=torch.float64)
             if mod.has_bias():
                 mod.module.bias.grad = torch.tensor([float(z * rng.randrange(-4, 5)) for _ in range(g)], dtype=torch.float64)
             V = torch.tensor([[rng.randrange(-8, 9) / 2 for _ in range(a)] for _ in range(g)], dtype=torch.float64)
